@@ -117,6 +117,7 @@ type Worker struct {
 	knownOn map[string]bool
 	dom       map[*Term]byteSet
 	entangled map[*Term]bool
+	facts     map[*Term]bool
 	condCache map[*Term]*condInfo
 	domHits   int64
 }
@@ -128,7 +129,19 @@ func (w *Worker) addPC(c *Term) {
 		}
 		return
 	}
+	// split conjunctions so that single-byte conjuncts feed the byte domains
+	if c.op == OAnd {
+		w.addPC(c.a)
+		w.addPC(c.b)
+		return
+	}
+	if c.op == ONot && c.a.op == OOr {
+		w.addPC(w.tt.Not(c.a.a))
+		w.addPC(w.tt.Not(c.a.b))
+		return
+	}
 	w.pc = append(w.pc, c)
+	w.addFact(c, true, 0)
 	if c.svState == 2 {
 		w.domAdd(c)
 	} else {
@@ -161,7 +174,14 @@ func (w *Worker) branch(c *Term) bool {
 		return v == 1
 	}
 	var alts []int
-	if known, val := w.domDecide(c); known {
+	if val, known := w.factOf(c); known {
+		w.domHits++
+		if val {
+			alts = []int{1}
+		} else {
+			alts = []int{0}
+		}
+	} else if known, val := w.domDecide(c); known {
 		w.domHits++
 		if val {
 			alts = []int{1}
@@ -505,6 +525,7 @@ func (w *Worker) runPath(fn *ssa.Function) (kind string, msg string) {
 	w.knownOn = map[string]bool{}
 	w.dom = map[*Term]byteSet{}
 	w.entangled = map[*Term]bool{}
+	w.facts = map[*Term]bool{}
 	if w.condCache == nil {
 		w.condCache = map[*Term]*condInfo{}
 	}
@@ -754,4 +775,68 @@ func sortedKeys(m map[string]bool) []string {
 	}
 	sort.Strings(r)
 	return r
+}
+
+// addFact records that term c has truth value v on this path, decomposing
+// conjunctions (and negated disjunctions).
+func (w *Worker) addFact(c *Term, v bool, depth int) {
+	if c.IsConst() || depth > 6 {
+		return
+	}
+	w.facts[c] = v
+	switch c.op {
+	case ONot:
+		w.addFact(c.a, !v, depth+1)
+	case OAnd:
+		if v {
+			w.addFact(c.a, true, depth+1)
+			w.addFact(c.b, true, depth+1)
+		}
+	case OOr:
+		if !v {
+			w.addFact(c.a, false, depth+1)
+			w.addFact(c.b, false, depth+1)
+		}
+	}
+}
+
+// factOf evaluates c from recorded facts (three-valued, structural).
+func (w *Worker) factOf(c *Term) (val bool, known bool) {
+	return w.factEval(c, 0)
+}
+
+func (w *Worker) factEval(c *Term, depth int) (bool, bool) {
+	if c.IsConst() {
+		return c.c != 0, true
+	}
+	if v, ok := w.facts[c]; ok {
+		return v, true
+	}
+	if depth > 6 {
+		return false, false
+	}
+	switch c.op {
+	case ONot:
+		v, ok := w.factEval(c.a, depth+1)
+		return !v, ok
+	case OAnd:
+		a, oka := w.factEval(c.a, depth+1)
+		b, okb := w.factEval(c.b, depth+1)
+		if (oka && !a) || (okb && !b) {
+			return false, true
+		}
+		if oka && okb {
+			return true, true
+		}
+	case OOr:
+		a, oka := w.factEval(c.a, depth+1)
+		b, okb := w.factEval(c.b, depth+1)
+		if (oka && a) || (okb && b) {
+			return true, true
+		}
+		if oka && okb {
+			return false, true
+		}
+	}
+	return false, false
 }
